@@ -1419,6 +1419,8 @@ def body(ctx):
                 tcv = case["tcensor"]
                 yk = ins[k] if (tcv != tcv or ins[k] != ins[k]) else max(ins[k], tcv)
                 dom = in_domain(cls, "bwd", case["params"], yk)
+                if in_domain(cls, "fwd", case["params"], case["censor"]) is False:
+                    dom = False      # forward(censor) itself is an out-of-domain value of an unguarded formula
                 if dom and (a != a) != (m != m) and (cls, "bwd") not in GUARDED:
                     dom = None
             else:
